@@ -334,6 +334,19 @@ KeyAttribution ==
         IN  {tree.m[i][1] : i \in 1..Len(tree.m)}
               = {ms[i].key : i \in {j \in 1..Len(ms) : ms[j].req \/ req.v[ms[j].name] # << >>}}
 
+\* the same for a nested public type decoded on its own (case.sv is the sent value)
+TypeDecodeFaithful ==
+    phase = "decoded" /\ case.op = "decode_type" /\ "sv" \in DOMAIN case =>
+        req = [ok |-> TRUE, err |-> "", v |-> Lossy(TypeByName(case.type), case.sv[1], F)]
+
+\* scenarios that state the outcome they expect from an independent table
+\* (limits, well-formedness): accept / drop (accepted, member absent) / reject
+ExpectedOutcome ==
+    phase = "decoded" /\ case.op \in {"decode2", "decode_type"} /\ "expect" \in DOMAIN case =>
+        CASE case.expect \in {"accept", "drop"} -> req.ok
+          [] case.expect = "reject" ->
+                ~req.ok /\ (IF case.op = "decode2" THEN req.status = ST_InvalidCbor ELSE req.err = "invalid")
+
 \* what the host sends in these scenarios is itself canonical CBOR
 HostCanonical ==
     phase = "received" /\ case.op = "decode2" /\ case.sv # << >> => IsCanonical(SubSeq(wire, 2, Len(wire)))
